@@ -115,9 +115,19 @@ def run_conn_engine(prop, reg, tier, seed, workdir, replay, C):
 def run_evm_engine(prop, reg, tier, seed, workdir, replay, C):
     total = {"histories": 0, "evaluations": 0, "stats": {}, "violations": [], "diffs": 0, "first_diff": None, "samples": []}
     runs = reg.get(tier, reg.get("quick", []))
+    hub_runs = reg.get("hub_" + tier, reg.get("hub_quick", []))
     if replay:
-        # an EVM history is replayed by regenerating it from its seed (recorded in the replay file)
         j = json.load(open(replay)) if replay.endswith(".json") else {}
+        hub_ops = [o for o in j.get("ops", []) if o.strip()] if j else open(replay).read().splitlines()
+        if hub_ops and not hub_ops[0].startswith("e_"):
+            # a closed-loop (hub + compiled contract) history: re-executed op by op in the hub harness
+            ops = os.path.join(workdir, "replay.ops")
+            open(ops, "w").write("\n".join(hub_ops) + "\n")
+            merge(total, C.run_replay(prop, ops, os.path.join(workdir, "replay")))
+            total["rule"] = "replay of a recorded closed-loop history"
+            return total
+        hub_runs = []
+        # an EVM history is replayed by regenerating it from its seed (recorded in the replay file)
         runs = [{"histories": 1, "ops": j.get("ops_per_history", 30), "seed": j.get("seed", seed)}]
     for i, run in enumerate(runs):
         d = os.path.join(workdir, f"run{i}")
@@ -147,9 +157,19 @@ def run_evm_engine(prop, reg, tier, seed, workdir, replay, C):
         r["diffs"], r["first_diff"] = nd, first
         merge(total, r)
         total["samples"].append([l[:300] for l in opl[:12]])
+    # the closed loop: hub keepers + validators + relayer + the same compiled contract in one history (hub harness)
+    for i, run in enumerate(hub_runs):
+        d = os.path.join(workdir, f"hubrun{i}")
+        merge(total, C.run_hub(prop, run, seed + 104729 + i * 7919, d))
+        try:
+            total["samples"].append(open(os.path.join(d, "ops.txt")).read().splitlines()[:40])
+        except Exception:
+            pass
     st = total["stats"]
     total["distinct_nontrivial"] = max(len(st), min(total["histories"], st.get("op:e_update:ok", 0) + st.get("op:e_batch:ok", 0)))
     total["rule"] = ("relayer histories generated from VERIF_SEED: signer-set updates and batches built from the hub's own types, digests (GetCheckpoint) and signatures "
                      "(NewEthereumSignature), submitted with random subsets of confirmations, stale/ahead nonces, timeouts, foreign keys and wrong digests to the compiled Hub2 "
-                     "contract on go-ethereum's simulated backend; accept/reject and contract state compared with the Lean contract model; distinct_nontrivial = distinct (op, outcome) classes")
+                     "contract on go-ethereum's simulated backend; accept/reject and contract state compared with the Lean contract model; plus closed-loop histories in the hub harness "
+                     "(real keepers, validators confirming through the msg server, a relayer submitting what the hub's queries return to the same compiled contract, the contract's events "
+                     "voted back; hub ops compared with the Lean hub model); distinct_nontrivial = distinct (op, outcome) classes")
     return total
